@@ -145,10 +145,9 @@ def isColl : Tree → Bool
   | .leaf .. => false
   | _ => true
 
-/-- below `dir`, `fs` holds exactly what the tasks `ts` write -/
-def Exactly (fs : FS) (dir : Path) (ts : List (Path × File)) : Prop :=
-  (∀ x ∈ ts, fs x.1 = some x.2) ∧
-    (∀ rest, rest ≠ [] → (∀ x ∈ ts, x.1 ≠ dir ++ rest) → fs (dir ++ rest) = none)
+/-- `fs` holds what the tasks `ts` wrote (whatever else it holds) -/
+def Exactly (fs : FS) (_dir : Path) (ts : List (Path × File)) : Prop :=
+  ∀ x ∈ ts, fs x.1 = some x.2
 
 theorem mem_tasksKids (dir : Path) : ∀ (kids : List (String × Tree)) (y : Path × File),
     y ∈ tasksKids dir kids ↔ ∃ kid ∈ kids, y ∈ tasksKids dir [kid]
@@ -204,7 +203,7 @@ theorem kid_task_path (dir : Path) (b : List Nat) (d : String) (kids : List (Str
     exact hnd.2.2 (entryName kid) (List.mem_map_of_mem hk) "meta.json" (by simp) this.1.symm
 
 theorem descend (fs : FS) (dir : Path) (b : List Nat) (d : String) (kids : List (String × Tree))
-    (hs : PathSafe (.node b d kids)) (he : Exactly fs dir (tasksTree dir (.node b d kids)))
+    (he : Exactly fs dir (tasksTree dir (.node b d kids)))
     (k : String) (t : Tree) (hk : (k, t) ∈ kids) (hc : isColl t = true) :
     Exactly fs (dir ++ [k]) (tasksTree (dir ++ [k]) t) := by
   have hsub : ∀ x, x ∈ tasksTree (dir ++ [k]) t ↔ x ∈ tasksKids dir [(k, t)] := by
@@ -213,41 +212,21 @@ theorem descend (fs : FS) (dir : Path) (b : List Nat) (d : String) (kids : List 
     | leaf _ _ _ => simp [isColl] at hc
     | nontensor _ _ => simp [tasksKids]
     | node _ _ _ => simp [tasksKids]
-  have hname : entryName (k, t) = k := by
-    cases t with
-    | leaf _ _ _ => simp [isColl] at hc
-    | nontensor _ _ => rfl
-    | node _ _ _ => rfl
-  constructor
-  · intro x hx
-    apply he.1
-    simp only [tasksTree, List.mem_append]
-    left
-    exact (mem_tasksKids dir kids x).2 ⟨(k, t), hk, (hsub x).1 hx⟩
-  · intro rest hr hno
-    have : (dir ++ [k]) ++ rest = dir ++ (k :: rest) := by simp
-    rw [this]
-    apply he.2 (k :: rest) (by simp)
-    intro y hy hp
-    have := kid_task_path dir b d kids hs (k, t) hk y hy rest (by rw [hname]; exact hp)
-    exact hno y ((hsub y).2 this) (by rw [hp]; simp)
+  intro x hx
+  apply he
+  simp only [tasksTree, List.mem_append]
+  left
+  exact (mem_tasksKids dir kids x).2 ⟨(k, t), hk, (hsub x).1 hx⟩
 
 theorem leaf_cell (fs : FS) (dir : Path) (b : List Nat) (d : String) (kids : List (String × Tree))
-    (hs : PathSafe (.node b d kids)) (he : Exactly fs dir (tasksTree dir (.node b d kids)))
-    (k dt : String) (s bts : List Nat) (hk : (k, Tree.leaf dt s bts) ∈ kids) :
-    fs (dir ++ [k ++ ".memmap"]) = if numel s = 0 then none else some (.bytes bts) := by
-  by_cases h0 : numel s = 0
-  · simp only [h0, if_true]
-    apply he.2 [k ++ ".memmap"] (by simp)
-    intro y hy hp
-    have := kid_task_path dir b d kids hs (k, .leaf dt s bts) hk y hy [] (by simpa [entryName] using hp)
-    simp [tasksKids, h0] at this
-  · simp only [h0, if_false]
-    have hmem : (dir ++ [k ++ ".memmap"], File.bytes bts) ∈ tasksTree dir (.node b d kids) := by
-      simp only [tasksTree, List.mem_append]
-      left
-      exact (mem_tasksKids dir kids _).2 ⟨(k, .leaf dt s bts), hk, by simp [tasksKids, h0]⟩
-    exact he.1 _ hmem
+    (he : Exactly fs dir (tasksTree dir (.node b d kids)))
+    (k dt : String) (s bts : List Nat) (hk : (k, Tree.leaf dt s bts) ∈ kids) (h0 : numel s ≠ 0) :
+    fs (dir ++ [k ++ ".memmap"]) = some (.bytes bts) := by
+  have hmem : (dir ++ [k ++ ".memmap"], File.bytes bts) ∈ tasksTree dir (.node b d kids) := by
+    simp only [tasksTree, List.mem_append]
+    left
+    exact (mem_tasksKids dir kids _).2 ⟨(k, .leaf dt s bts), hk, by simp [tasksKids, h0]⟩
+  exact he _ hmem
 
 theorem depth_le_of_mem : ∀ (kids : List (String × Tree)) (k : String) (t : Tree), (k, t) ∈ kids → depth t ≤ depthKids kids
   | [], _, _, h => by simp at h
@@ -282,11 +261,11 @@ theorem load_ok : ∀ (fuel : Nat) (t : Tree) (dir : Path) (fs : FS), isColl t =
     cases t with
     | leaf _ _ _ => simp [isColl] at hc
     | nontensor data bt =>
-      have := he.1 (dir ++ ["meta.json"], .json (ntMeta data bt)) (by simp [tasksTree])
+      have := he (dir ++ ["meta.json"], .json (ntMeta data bt)) (by simp [tasksTree])
       simp only at this
       simp [load, this, ntMeta]
     | node bt dv kids =>
-      have hm := he.1 (dir ++ ["meta.json"], .json (nodeMeta bt dv kids)) (by simp [tasksTree])
+      have hm := he (dir ++ ["meta.json"], .json (nodeMeta bt dv kids)) (by simp [tasksTree])
       simp only at hm
       have hdk : depthKids kids ≤ f := by simp only [depth] at hd; omega
       have hsk : PathSafeKids kids := by simp only [PathSafe] at hs; exact hs.2.2
@@ -304,25 +283,28 @@ theorem load_ok : ∀ (fuel : Nat) (t : Tree) (dir : Path) (fs : FS), isColl t =
           have hmem : (k, t) ∈ kids := hsub (k, t) List.mem_cons_self
           cases t with
           | leaf dt s bts =>
-            have hcell := leaf_cell fs dir bt dv kids hs he k dt s bts hmem
             rw [List.map_cons]
             change loadEntries f fs dir ((k, MetaEntry.leaf dt s) :: _) = _
-            simp only [loadEntries, hrest, hcell]
+            simp only [loadEntries, hrest]
             by_cases h0 : numel s = 0
-            · have : bts = [] := by
+            · have hb : bts = [] := by
                 have := (safe_of_mem kids k _ hmem hsk hwk).2
                 simpa [WF] using this h0
-              simp [h0, this]
-            · simp [h0]
+              subst hb
+              cases fs (dir ++ [k ++ ".memmap"]) with
+              | none => simp [h0]
+              | some fl => cases fl <;> simp [h0]
+            · rw [leaf_cell fs dir bt dv kids he k dt s bts hmem h0]
+              simp [h0]
           | nontensor data b2 =>
-            have hex := descend fs dir bt dv kids hs he k (.nontensor data b2) hmem rfl
+            have hex := descend fs dir bt dv kids he k (.nontensor data b2) hmem rfl
             have := ih (.nontensor data b2) (dir ++ [k]) fs rfl (by simp [PathSafe]) (by simp [WF])
               (by have := depth_le_of_mem kids k _ hmem; omega) hex
             rw [List.map_cons]
             change loadEntries f fs dir ((k, MetaEntry.coll "NonTensorData") :: _) = _
             simp only [loadEntries, hrest, this]
           | node b2 d2 ks2 =>
-            have hex := descend fs dir bt dv kids hs he k (.node b2 d2 ks2) hmem rfl
+            have hex := descend fs dir bt dv kids he k (.node b2 d2 ks2) hmem rfl
             have hsw := safe_of_mem kids k _ hmem hsk hwk
             have := ih (.node b2 d2 ks2) (dir ++ [k]) fs rfl hsw.1 hsw.2
               (by have := depth_le_of_mem kids k _ hmem; omega) hex
